@@ -18,6 +18,7 @@ func init() { register("C15", checkC15) }
 func checkC15(c *chk.Ctx) {
 	h := newH(c)
 	c.Decided = []string{
+		"R15h the update callback (index entries) sees the same record key as the batch write, on every path of the put",
 		"R15g an index comparison-get answers with the secondary key of the entry it chose (the client merges the per-shard answers of floor/ceiling/lower/higher by that key)",
 		"R15a index maintenance: an overwrite removes every index entry of the existing record before the new ones are written; a put writes every declared index entry; delete / delete-with-entry / range delete remove the entries of the record they delete; the apply functions call the callback before the record mutation (shared with C14)",
 		"R15b the key format written, the range-prefix format used by queries and the parsing regular expression are derived from each other (checked on the compile-time constant values)",
@@ -36,6 +37,7 @@ func checkC15(c *chk.Ctx) {
 	ruleR15c(h)
 	ruleR15d(h)
 	ruleR15g(h)
+	ruleRecordKeyAgreement(h, "R15h")
 	h.Rule("R15e", "K6", "the wrapper callback runs the index callback only after the session callback accepted the operation (no error, status OK) — shared with R14b", 4)
 	ruleWrapperChain(h, "R15e")
 	ruleR12fInto(h, "R15f")
